@@ -25,7 +25,9 @@ def runMonitor (pid : String) (c : MonCtx) (ls : List Label) : Option (Option Na
   | "C03" => some (match ff (monC03 c) ls with
       | some k => some k
       | none => ff (monC03q c) ls)
-  | "C04" => some (ff (monC04 c) ls)
+  | "C04" => some (match ff (monC04 c) ls with
+      | some k => some k
+      | none => ff (monC04q c) ls)
   | "C05" => some (ff (monC05 c) ls)
   | "C06" => some (ff (monC06 c) ls)
   | "C07" => some (match ff (monC07 c) ls with
@@ -41,7 +43,9 @@ def runMonitor (pid : String) (c : MonCtx) (ls : List Label) : Option (Option Na
   | "C15" => some (match ff (monC15 c) ls with
       | some k => some k
       | none => ff (monC15iw c) ls)
-  | "C17" => some (ff (monC17 c) ls)
+  | "C17" => some (match ff (monC17 c) ls with
+      | some k => some k
+      | none => ff (monC17n c) ls)
   | _ => none
 
 def allMonitors : List String :=
